@@ -5,7 +5,7 @@ CONSTANTS
   FactorSel = {1,2}
   PriorSel = {1,2,3,4}
   ModeSel = {1,2,3,4,5,6,7}
-  KSel = {0,2,3,5}
+  KSel = {0,2,3,4,5}
   MaxLevel = 15
   PriorTable = "persist_user_only"
   ViewSpace = "prior_mode"
